@@ -158,8 +158,15 @@ class Gen:
                     u.body.append("    %s {%s} = new %s(%d);" % (cls, t, cls, r.randint(1, 9)))
                     u.body.append('    echo("%s:" + {%s}.size);' % (u.name, t))
                     u.body.append("}")
-                else:
+                elif r.random() < 0.5:
                     u.body.append("%s {%s} = new %s(%d);" % (cls, t, cls, r.randint(1, 9)))
+                    u.body.append("destroy {%s};" % t)
+                else:
+                    # the variable is still declared after 'destroy': assigning and reading it again
+                    u.body.append("%s {%s} = new %s(%d);" % (cls, t, cls, r.randint(1, 9)))
+                    u.body.append("destroy {%s};" % t)
+                    u.body.append("{%s} = new %s(%d);" % (t, cls, r.randint(1, 9)))
+                    u.body.append('echo("%s:" + {%s}.size);' % (u.name, t))
                     u.body.append("destroy {%s};" % t)
             elif u.kind not in ("main", "dtor"):
                 # early return from inside a loop (the loop's scope must still be closed)
@@ -194,7 +201,12 @@ class Gen:
             u.body.append("return %s;" % self.int_expr(u))
             u = Unit("dtor", "dtor" + cls, cls, [], "void")
             self.units.append(u)
+            # every destructor has a top-level local of its own (B's and A's bodies run back to back)
+            dl = self.fresh("d")
+            u.body.append("int {%s} = %d;" % (dl, 1000 + r.randint(1, 9)))
+            u.locals.append(dl)
             self.body(u, r.randint(1, 3))
+            u.body.append('echo("~%s.local:" + {%s});' % (cls, dl))
             f = r.choice(self.fields_of(cls))
             u.free.add(f)
             u.body.append('echo("~%s:" + %s);' % (cls, f))
@@ -338,6 +350,16 @@ def run(ctx):
             ks = [x for x in ren if x[3] == kind]
             r.shuffle(ks)
             picked += ks[:cap // 5]
+        # destructors: every local against every field/static name it may legally take (the bodies of a
+        # derived and a base destructor run one after the other for the same object)
+        ks = [x for x in ren if x[0].startswith("dtor") and x[3] in ("field", "static") and x not in picked]
+        r.shuffle(ks)
+        picked += ks[:cap // 3]
+        # object-typed locals of methods (created, destroyed, assigned again) against the fields of their class
+        meth = {u.name for u in g.units if u.kind == "method"}
+        ks = [x for x in ren if x[0] in meth and re.match(r"t\d+$", x[1]) and x[3] in ("field", "static") and x not in picked]
+        r.shuffle(ks)
+        picked += ks[:cap // 3]
         jobs.append((i, g, None))
         for x in picked:
             jobs.append((i, g, x))
